@@ -2,8 +2,8 @@
 (* The search loop over one universe (the definition of U below is rewritten by the harness from a  *)
 (* table extracted from a real search, or from the hand-written family), every time-slicing.        *)
 EXTENDS Naturals, Sequences, TLC
-R(ch, pe, ip, wk, tw, sh, nf) == [ch |-> ch, pe |-> pe, ip |-> ip, wk |-> wk, tw |-> tw, sh |-> sh, nf |-> nf]
-U == [start |-> 0, empty |-> {}, verified |-> {1}, ninf |-> 0, ninit |-> 1, nexp |-> 1, nsym |-> 0, flavour |-> "base", inferral |-> <<>>, symm |-> <<>>, initial |-> (2 :> << <<R(<<1, 0>>, FALSE, TRUE, TRUE, TRUE, <<0, 1>>, TRUE)>> >>), expand |-> (0 :> << <<R(<<1, 2>>, TRUE, FALSE, TRUE, TRUE, <<0, 0>>, TRUE)>> >>)] \* @UNIVERSE@
+R(par, ch, pe, ip, wk, tw, rv, sh, nf) == [par |-> par, ch |-> ch, pe |-> pe, ip |-> ip, wk |-> wk, tw |-> tw, rv |-> rv, sh |-> sh, nf |-> nf]
+U == [start |-> 0, empty |-> {}, verified |-> {1}, ninf |-> 0, ninit |-> 1, nexps |-> <<1>>, nsym |-> 0, flavour |-> "base", reverse |-> FALSE, iterative |-> FALSE, inferral |-> <<>>, symm |-> <<>>, initial |-> (2 :> << <<R(2, <<1, 0>>, FALSE, TRUE, TRUE, TRUE, TRUE, <<0, 1>>, TRUE)>> >>), expand |-> (0 :> << << <<R(0, <<1, 2>>, TRUE, FALSE, TRUE, TRUE, TRUE, <<0, 0>>, TRUE)>> >> >>)] \* @UNIVERSE@
 VARIABLES store, empt, q, rules, keys, marks, tried, infx, symx, expanded, skipped, phase, checks
 INSTANCE Search
 MaxChecks == 6 \* @MAXCHECKS@
